@@ -36,27 +36,43 @@ def kdq_counts(det):
     return rows, kss
 
 
-def run_hdm(fam, cfg, batches, seeds):
+def _labelled(b, style):
+    """the batch as the caller's pipeline delivers it: ndarray, or a DataFrame whose row labels repeat / are not 0..n-1
+    (concatenated frames, filtered frames): a batch is its rows, whatever their labels"""
+    import pandas as pd
+    if not style:
+        return b.copy()
+    n = len(b)
+    idx = [i // 2 for i in range(n)] if style == 1 else [i % 3 for i in range(n)] if style == 2 else list(range(100, 100 + n))
+    return pd.DataFrame(b.copy(), index=idx)
+
+
+def run_hdm(fam, cfg, batches, seeds, extra=None):
     det = fam.make(cfg)
-    np.random.seed(seeds[0]); det.set_reference(batches[0].copy())
+    style = (extra or {}).get("frame_style", 0)
+    np.random.seed(seeds[0]); det.set_reference(_labelled(batches[0], style))
     states, dists = [], []
     for b, s in zip(batches[1:], seeds[1:]):
-        np.random.seed(s); det.update(b.copy())
+        np.random.seed(s); det.update(_labelled(b, style))
         states.append(det.drift_state); dists.append(float(det.current_distance))
     return states, dists
 
 
-def run_kdq(fam, cfg, batches, seeds):
+def run_kdq(fam, cfg, batches, seeds, extra=None):
     det = fam.make(cfg)
     np.random.seed(seeds[0]); det.set_reference(batches[0].copy())
     states, counts = [], []
-    for b, s in zip(batches[1:], seeds[1:]):
+    reref = (extra or {}).get("reref")        # (position, the reference again -- in this run's row order --, seed)
+    for j, (b, s) in enumerate(zip(batches[1:], seeds[1:])):
+        if reref is not None and j == reref[0]:
+            np.random.seed(reref[2]); det.set_reference(reref[1].copy())     # the user installs the same reference once more
         np.random.seed(s); det.update(b.copy())
-        states.append(det.drift_state); counts.append(kdq_counts(det))
+        crit = getattr(det, "_critical_dist", None)     # (private; read as an observable only, skipped when absent)
+        states.append(det.drift_state); counts.append((kdq_counts(det), None if crit is None else round(float(crit), 12)))
     return states, counts
 
 
-def run_nndvi(fam, cfg, batches, seeds):
+def run_nndvi(fam, cfg, batches, seeds, extra=None):
     from menelaus.partitioners import NNSpacePartitioner
     det = fam.make(cfg)
     np.random.seed(seeds[0]); det.set_reference(batches[0].copy())
@@ -111,8 +127,20 @@ def run(ctx):
                 cfg = dict(cfg, count_ubound=100)        # a few hundred leaves: the public tree frame stays cheap to read
                 ctx.count(f"{name}:huge-reference-cases")
             runner = {"HDDDM": run_hdm, "CDBD": run_hdm, "KdqTreeBatch": run_kdq, "NNDVI": run_nndvi}[name]
+            extra0 = {}
+            if name in ("HDDDM", "CDBD") and k % 3 == 1:
+                extra0["frame_style"] = 1 + (k // 3) % 3
+                ctx.count(f"{name}:frames-with-repeated-or-shifted-row-labels")
+            reref_pos = reref_seed = None
+            if name == "KdqTreeBatch" and k % 2 == 1 and len(batches) > 3:
+                # the same reference installed a second time in mid-history (in the permuted run: the same rows in yet another
+                # order): whatever an implementation remembers about "the array I built the tree from" must not matter
+                # (position 0: right after the first installation, before any drift can have replaced the reference)
+                reref_pos, reref_seed = (0 if k % 4 == 1 else int(crng.integers(1, len(batches) - 1))), int(crng.integers(0, 2**31))
+                extra0["reref"] = (reref_pos, batches[0], reref_seed)
+                ctx.count(f"{name}:reference-installed-twice")
             try:
-                st0, ob0 = runner(fam, cfg, batches, seeds)
+                st0, ob0 = runner(fam, cfg, batches, seeds, extra0)
             except Exception as e:
                 ctx.count(f"{name}:original-run-raised"); continue
             ctx.traces += 1
@@ -128,8 +156,11 @@ def run(ctx):
                     else:
                         idx = prng.permutation(m)
                     pb.append(b[idx])
+                extra1 = dict(extra0)
+                if reref_pos is not None:
+                    extra1["reref"] = (reref_pos, batches[0][prng.permutation(len(batches[0]))], reref_seed)
                 try:
-                    st1, ob1 = runner(fam, cfg, pb, seeds)
+                    st1, ob1 = runner(fam, cfg, pb, seeds, extra1)
                 except Exception as e:
                     ctx.fail(detector=name, config=cfg, permutation=pname, what=f"permuted run raised {type(e).__name__}: {e}",
                              batches=_dump(batches[:4]))
